@@ -144,7 +144,16 @@ def rule_variable_layout(ctx):
                 t = prog.body_for_callee(callee_of(s), frv)
                 if t is not None and t.ret_ty == "usize" and t.n_args == 2:
                     rfn = t
-            if r.check(R0 is not None and rfn is not None, name + "|R", "non-affine", "first_range_var(n) = %s" % R0, "cannot evaluate first_range_var of %s" % name, frv.loc()):
+            layout_obj = None
+            if R0 is None or rfn is None:
+                for s in frv.calls():
+                    t = prog.body_for_callee(callee_of(s), frv)
+                    a_ = prog.adt((t.impl or {}).get("self_adt") or "") if t is not None and t.impl else None
+                    if t is not None and t.kind != "closure" and t.ret_ty == "usize" and a_ is not None and str(a_.get("vis") or "pub") != "pub":
+                        layout_obj = a_["path"].rsplit("::", 1)[-1]
+            if layout_obj:
+                r.ok(name + "|R", "NOT decided: the range-variable map is a method of the private object %s, whose fields the affine evaluation does not follow" % layout_obj, frv.loc())
+            elif r.check(R0 is not None and rfn is not None, name + "|R", "non-affine", "first_range_var(n) = %s" % R0, "cannot evaluate first_range_var of %s" % name, frv.loc()):
                 R = eval_function(prog, rfn, {1: Aff.sym("n"), 2: Aff.sym("j")})
                 r.check(R is not None and R.subst({"j": Aff({}, 0)}) == R0 and R.coeff("j") == 1, name + "|R", "range-indexing", "R(n,j) = %s = first_range_var(n) + j" % R, "range variables are not first_range_var(n) + id (the range solvers index them that way): R = %s, first = %s" % (R, R0), rfn.loc())
         else:
@@ -634,6 +643,11 @@ def rule_clause_templates(ctx):
                 n += 1
                 missing = sorted(want - got)
                 extra = sorted(got - want)
+                if extra and all("?" in str(e) for e in extra):
+                    # every unexpected template has an element the extractor could not classify (a literal built by a method of a layout
+                    # object, a clause returned by a helper through a function pointer): the mode is not decided rather than compared
+                    r.ok(anchor, "NOT decided: %d template(s) hold elements the extractor cannot classify (e.g. %s)" % (len(extra), extra[0]), where[extra[0]].site.loc())
+                    continue
                 if missing and not extra:
                     # templates not found, none unexpected: if clauses can reach the solver through a construct the extractor does not
                     # follow (a call through a function pointer that is handed the solver), the mode is not decided
